@@ -265,6 +265,21 @@ _add('C15', [('/pwr/rediff', 'NewContext')])
 _add('C07', [('/pwr/rediff', 'NewContext')])
 
 # properties with a registered check
+# round 5 (hard mode) strengthening
+_add('C19', [('/archiver/containerarchiver', 'CompressZip')])
+_add('C17', [('/pwr/bowl', '(*overlayBowl).Resume'), ('/pwr/bowl', '(*overlayBowl).Save')])
+_add('C14', [('/pwr/overlay', '(*overlayWriter).ReadOffset')])
+_add('C03', [('/pwr/overlay', '(*overlayWriter).ReadOffset')])
+_add('C02', [('/pwr/bowl', '(*overlayBowl).Commit')])
+_add('C15', [('/pwr/rediff', '(*context).Partitions'), ('/ctxcopy', 'Do')])
+_add('C07', [('/pwr/rediff', '(*context).Partitions')])
+_add('C06', [('/ctxcopy', 'Do')])
+_add('C09', [('/wsync', 'NewContext')])
+_add('C01', [('/wsync', 'NewContext')])
+_add('C11', [('/wsync', '(*Context).uniqueHash')])
+_add('C04', [('/wsync', '(*Context).uniqueHash')])
+_add('C08', [('/pwr', '(*DiffContext).WritePatch')])
+_add('C10', [('/bsdiff/lrufile', '(*lruFile).Read')])
 CLAIMED = {'C02', 'C03', 'C15', 'C19', 'C18', 'C04', 'C09', 'C17', 'C11', 'C08', 'C01', 'C10', 'C12', 'C07', 'C14', 'C13', 'C05', 'C16', 'C06'}
 # reasons for properties not claimed (kept current)
 NOT_APPLICABLE = {}
